@@ -73,7 +73,7 @@ def case_strategy(draw):
              mob.tolist()]
     return {"fixed": fixed.tolist(), "built_with": mob.tolist(), "restr": restr, "rkind": kind,
             "layout": layout, "evals": evals, "seed": draw(gen.SEEDS),
-            "as_tuples": draw(st.booleans()), "reuse_restr": draw(st.integers(0, 3)) == 0,
+            "as_tuples": draw(st.booleans()), "reuse_restr": draw(st.integers(0, 3)) == 0, "work_array": draw(st.integers(0, 2)) == 0,
             "mem": [draw(st.sampled_from(gen.ARRAY_LAYOUTS)) for _ in range(5)]}
 
 
@@ -118,8 +118,17 @@ def check(case):
     calc = lib("construct", gaddlemaps.Chi2Calculator, fixed, built, restr if restr else None)
     ks = []
     any_tie = False
+    work = None
     for idx, ev in enumerate(case["evals"]):
-        mob = gen.as_layout(ev, mem[2 + idx])
+        if case.get("work_array"):
+            # the caller keeps ONE coordinate array and updates it in place between evaluations
+            if work is None:
+                work = np.array(ev, float)
+            else:
+                work[...] = np.array(ev, float)
+            mob = work
+        else:
+            mob = gen.as_layout(ev, mem[2 + idx])
         mob_snapshot = mob.copy()
         got = lib("evaluate", calc, mob)
         k, tie = _compare("definition", got, case["fixed"], ev, rlist, "%s eval%d (arrays %s)" % (case["rkind"], idx, "/".join(mem)))
